@@ -114,6 +114,7 @@ op("drop_B", "alter table t drop column b", lambda m: _has(m, "T") and "B" in _c
 op("readd_B", "alter table t add column b varchar", lambda m: _has(m, "T") and "B" not in _colnames(m, "T"), lambda m: _tcols(m, "T").append(col("B", "C")))
 op("rename_col_B", "alter table t rename column b to b2", lambda m: _has(m, "T") and "B" in _colnames(m, "T") and "B2" not in _colnames(m, "T") and not _views_on(m, "T"), lambda m: [c.update(name="B2", origin="renamed_column") for c in _tcols(m, "T") if c["name"] == "B"])
 op("rename_T_U", "alter table t rename to u", lambda m: _has(m, "T") and _free(m, "U") and not _views_on(m, "T"), lambda m: m.s1().__setitem__("U", dict(m.s1().pop("T"), renamed=True)))
+op("rename_U_T", "alter table u rename to t", lambda m: _has(m, "U") and _free(m, "T"), lambda m: m.s1().__setitem__("T", dict(m.s1().pop("U"), renamed=True)))
 op("set_comment", "alter table t set comment = 'c3'", lambda m: _has(m, "T"), lambda m: m.s1()["T"].__setitem__("comment", "c3"))
 op("comment_on", "comment on table t is 'c4'", lambda m: _has(m, "T"), lambda m: m.s1()["T"].__setitem__("comment", "c4"))
 op("drop_T", "drop table t", lambda m: _has(m, "T") and not _views_on(m, "T"), lambda m: m.s1().pop("T"))
@@ -164,6 +165,15 @@ COLLISIONS = [
     ["create_T_comment", "clone_U", "replace_U_from_missing"],
     ["create_T", "view_V", "dup_create_V"],
     ["create_S2", "create_S2_T", "create_T_comment"],  # same table name with different columns in two schemas
+    # a comment set through the no-op path, then changed by another route, then statements that are answered by the
+    # shared no-op statement (SET / SET TAG): the shared object must not carry the old comment along
+    ["create_T", "comment_on", "replace_T", "nop_set", "nop_tag"],
+    ["create_T", "set_comment", "replace_T", "nop_tag", "nop_set"],
+    ["create_T_comment", "comment_on", "create_S2", "create_S2_T", "nop_set"],
+    # renaming onto a name whose earlier table was dropped (its metadata must not come back)
+    ["create_T_comment", "ctas_U_plain", "drop_T", "rename_U_T"],
+    ["create_T_comment", "ctas_U_cast", "drop_T", "rename_U_T", "nop_set"],
+    ["create_T_comment", "rename_T_U", "create_T", "drop_T", "rename_U_T"],
 ]
 
 
